@@ -182,11 +182,23 @@ def load_state(cls, tally):
         raise RxUnsupported("lexer reflags")
     if getattr(cls, "literals", None):
         raise RxUnsupported("lexer literals")
-    if getattr(cls, "ignore", ""):
-        raise RxUnsupported("lexer ignore characters")
-    if getattr(cls, "_remapping", None):
-        raise RxUnsupported("token remapping")
     idx = 0
+    ign = getattr(cls, "ignore", "")
+    if ign:
+        # sly skips any character of `ignore` BEFORE trying the rules: a synthetic first rule
+        r = Rule("ignore_<ignore-chars>", idx, "[%s]" % ign, [], None)
+        r.rx = Set([(ord(c), ord(c)) for c in ign])
+        r.guard = None
+        r.lazy = False
+        r.core_items = []
+        r.func = None
+        r.ignored_type = True
+        r.policy = "unique"
+        r.policy_why = "single character of Lexer.ignore"
+        r.synthetic = True
+        rx.register_rx(r.rx)
+        st.rules.append(r)
+        idx += 1
     for name, value in cls._rules:
         pattern = value if isinstance(value, str) else value.pattern
         ttype = name[7:] if name.startswith("ignore_") else name
@@ -206,6 +218,8 @@ def load_state(cls, tally):
 
 def classify_state(st, tally):
     for r in st.rules:
+        if getattr(r, "synthetic", False):
+            continue
         classify(r, tally)
 
 
